@@ -6,6 +6,7 @@ import (
 	"fmt"
 	"io"
 
+	"github.com/superfly/litefs/internal"
 	"github.com/superfly/ltx"
 )
 
@@ -120,8 +121,8 @@ func (f *LTXStreamFrame) ReadFrom(r io.Reader) (int64, error) {
 		return 0, err
 	}
 
-	name := make([]byte, nameN)
-	if _, err := io.ReadFull(r, name); err == io.EOF {
+	name, err := internal.ReadBytes(r, nameN)
+	if err == io.EOF {
 		return 0, io.ErrUnexpectedEOF
 	} else if err != nil {
 		return 0, err
@@ -173,8 +174,8 @@ func (f *DropDBStreamFrame) ReadFrom(r io.Reader) (int64, error) {
 		return 0, err
 	}
 
-	name := make([]byte, nameN)
-	if _, err := io.ReadFull(r, name); err == io.EOF {
+	name, err := internal.ReadBytes(r, nameN)
+	if err == io.EOF {
 		return 0, io.ErrUnexpectedEOF
 	} else if err != nil {
 		return 0, err
@@ -208,8 +209,8 @@ func (f *HandoffStreamFrame) ReadFrom(r io.Reader) (int64, error) {
 		return 0, err
 	}
 
-	leaseID := make([]byte, n)
-	if _, err := io.ReadFull(r, leaseID); err == io.EOF {
+	leaseID, err := internal.ReadBytes(r, n)
+	if err == io.EOF {
 		return 0, io.ErrUnexpectedEOF
 	} else if err != nil {
 		return 0, err
@@ -253,8 +254,8 @@ func (f *HWMStreamFrame) ReadFrom(r io.Reader) (int64, error) {
 		return 0, err
 	}
 
-	name := make([]byte, nameN)
-	if _, err := io.ReadFull(r, name); err == io.EOF {
+	name, err := internal.ReadBytes(r, nameN)
+	if err == io.EOF {
 		return 0, io.ErrUnexpectedEOF
 	} else if err != nil {
 		return 0, err
